@@ -1,6 +1,7 @@
 package main
 
 import (
+	"fmt"
 	"go/types"
 	"strings"
 
@@ -272,7 +273,7 @@ func (x *vc) reflectModel(fr *frame, st *state, callee *ssa.Function, args []Val
 		need("SetMapIndex", and(eq(kind(v), "21"), app("rv_canif", v), not(app("rv_isnil", v))), "receiver must be a non-nil Map obtained without unexported fields")
 		return Val{}, true
 	case "(reflect.Value).Set":
-		need("Set", and(app("rv_canset", v), app("rv_valid", args[1].T)), "receiver must be settable (addressable, exported) and the argument valid")
+		need("Set", and(app("rv_canset", v), app("rv_valid", args[1].T), app("rv_canif", args[1].T)), "receiver must be settable (addressable, exported) and the argument valid and not obtained through an unexported field")
 		return Val{}, true
 	case "(reflect.Value).NumField":
 		need("NumField", eq(kind(v), "25"), "receiver must be a Struct")
@@ -328,11 +329,18 @@ func (x *vc) reflectModel(fr *frame, st *state, callee *ssa.Function, args []Val
 		n := "0"
 		if len(args) > 1 && args[1].T != "" {
 			n = app("sl_len", args[1].T)
+			// every appended Value is Set into the result: it must be valid and not obtained through an unexported field
+			if slT, ok := args[1].Typ.Underlying().(*types.Slice); ok {
+				name, srt := x.elemArr(st, slT.Elem())
+				cur := x.heapArr(st, name, srt)
+				el := fmt.Sprintf("(select (select %s (sl_arr %s)) (+ (sl_off %s) ak))", cur, args[1].T, args[1].T)
+				need("Append.arg", fmt.Sprintf("(forall ((ak Int)) (=> (and (<= 0 ak) (< ak (sl_len %s))) (and (rv_valid %s) (rv_canif %s))))", args[1].T, el, el), "every appended Value must be valid and obtained without unexported struct fields")
+			}
 		}
 		x.assume(st.guard, and(eq(kind(r.T), "23"), eq(app("rv_len", r.T), app("+", app("rv_len", v), n)), eq(app("rv_canif", r.T), app("rv_canif", v)), not(app("rv_isnil", r.T))))
 		return r, true
 	case "reflect.AppendSlice":
-		need("AppendSlice", and(eq(kind(v), "23"), eq(kind(args[1].T), "23")), "both arguments must be Slices")
+		need("AppendSlice", and(eq(kind(v), "23"), eq(kind(args[1].T), "23"), app("rv_canif", args[1].T)), "both arguments must be Slices, the second not obtained through an unexported field")
 		r := newRV("rvappendslice")
 		x.assume(st.guard, and(eq(kind(r.T), "23"), eq(app("rv_len", r.T), app("+", app("rv_len", v), app("rv_len", args[1].T))), eq(app("rv_canif", r.T), app("rv_canif", v))))
 		return r, true
